@@ -329,8 +329,10 @@ def chunk_boundaries(ctx):
     xctx = XmlContext()
     for size in (16384, 32768, 65536):
         for off in (-9, -4, -1, 0, 1, 5):
-            head, rest = "<R>lead<a>", "</a>TAILTEXT<b/>mid<c>q</c>end</R>"
-            text = head + "x" * (size + off - len(head) - len("</a>")) + rest
+            # a short tail next to the boundary (off around 0) and a LONG one that starts well before it and ends after it
+            long_tail = off in (-9, 5)
+            head, rest = "<R>lead<a>", "</a>" + ("TAILTEXT" * 250 if long_tail else "TAILTEXT") + "<b/>mid<c>q</c>end</R>"
+            text = head + "x" * (size + off - (1000 if long_tail else 0) - len(head) - len("</a>")) + rest
             want = infoset.canon(infoset.parse(text), strip_ws_between_children=False)["content"]
             for placement in ("list", "mixed"):
                 for h in ("native", "lxml"):
@@ -348,7 +350,7 @@ def chunk_boundaries(ctx):
                             continue
                         if got != want:
                             ctx.violation(f"large document ({placement}, {h} handler, {src} source): end tag of <a> at byte {size + off}: the text after it comes back as "
-                                          f"{[c for c in got if isinstance(c, str)]!r}, the document says {[c for c in want if isinstance(c, str)]!r}", info)
+                                          f"{[c[:24] for c in got if isinstance(c, str)]!r} (lengths {[len(c) for c in got if isinstance(c, str)]}), the document says {[c[:24] for c in want if isinstance(c, str)]!r} (lengths {[len(c) for c in want if isinstance(c, str)]})", info)
 
 
 def check_two_wildcards(ctx):
